@@ -33,6 +33,9 @@ func (w *World) newFCtx(name string, ct *Contract, defaultSafety bool) *FCtx {
 		if ct.Mode == "bv" {
 			c.Mode = ModeBV
 		}
+		if ct.Flags["abstract"] != "" {
+			c.AbsKeys = true
+		}
 		switch ct.Safety {
 		case "on":
 			c.Safety = true
@@ -274,6 +277,9 @@ func (c *FCtx) walkInputs(name string, t types.Type, v Value) {
 }
 
 func (c *FCtx) checkPost(e *Env, st *State, tag string, pos token.Pos) {
+	saved := c.specAt
+	c.specAt = pos
+	defer func() { c.specAt = saved }()
 	ct := c.Contract
 	if ct != nil {
 		extra := map[string]TV{}
